@@ -36,11 +36,19 @@ def fn1 (a : Array Float) : Nat → Float := fun k => idx a k
 def fn2 (n : Nat) (a : Array Float) : Nat → Nat → Float := fun i j => idx a (i * n + j)
 def ofList2 (n : Nat) (l : List Float) : Nat → Nat → Float := fn2 n l.toArray
 
-/-- first index where two arrays differ beyond the correspondence tolerance -/
-def firstDiff (name : String) (model impl : Array Float) : Option String :=
+/-- first index where two arrays differ beyond the correspondence tolerance.  `cond` (optional) gives, per
+entry, the sum of the absolute values of the terms of the dot product that produced it: two correct
+`float64` evaluations of `Σ_k R_ik·exp(λ_k t)·L_kj` may differ by a few units in the last place *of the
+terms* (`math.Exp` and libm's `exp` are not bit-identical), so `64·ε·Σ|terms|` is allowed on top of the
+relative tolerance.  For a healthy eigen-system this is ≈ 1e-14; it only matters when the
+implementation's eigen-system is garbage (entries of size 1e18, see the known finding). -/
+def firstDiff (name : String) (model impl : Array Float) (cond : Option (Array Float) := none) : Option String :=
   if model.size != impl.size then some s!"{name}: size model={model.size} impl={impl.size}" else
   (List.range model.size).findSome? fun k =>
-    if close relTol absFloor (idx model k) (idx impl k) then none
+    let slack := match cond with
+      | some c => absFloor + 64 * 2.220446049250313e-16 * idx c k
+      | none => absFloor
+    if close relTol slack (idx model k) (idx impl k) then none
     else some s!"{name}[{k}]: model={fmt (idx model k)} impl={fmt (idx impl k)}"
 
 structure Setup where
@@ -101,6 +109,14 @@ def setup (model : String) (p : Array Float) : Option Setup :=
 /-- `NewPij(model, x)` then `Pij(i,j)` for all `i j`, through the eigen-system path -/
 def assemble (n : Nat) (val l r : Array Float) (x : Float) : Array Float :=
   (Mat.ofFn n fun i j => Model.Pij.newPijEntry n (fn1 val) (fn2 n l) (fn2 n r) x i j).a
+
+/-- `Σ_k |R_ik · exp(λ_k x) · L_kj|`: the scale of the rounding error of `assemble` -/
+def assembleAbs (n : Nat) (val l r : Array Float) (x : Float) : Array Float :=
+  (Mat.ofFn n fun i j => Id.run do
+    let mut v : Float := 0
+    for k in [0:n] do
+      v := v + (idx r (i * n + k) * Float.exp (idx val k * x) * idx l (k * n + j)).abs
+    return v).a
 
 def closedForm (n : Nat) (f : Nat → Nat → Float → Float) (x : Float) : Array Float :=
   (Mat.ofFn n fun i j => f i j x).a
@@ -205,8 +221,9 @@ def handle : Handler := fun op args impl =>
     -- ---------------- model side ----------------
     let xs := [("s", s, psI), ("t", t, ptI), ("st", s + t, pstI)]
     let mut diff : Option String := none
-    let chk (d : Option String) (name : String) (m i : Array Float) : Option String :=
-      match d with | some x => some x | none => firstDiff name m i
+    let chk (d : Option String) (name : String) (m i : Array Float) (cond : Option (Array Float) := none) :
+        Option String :=
+      match d with | some x => some x | none => firstDiff name m i cond
     if Model.Pij.dblMin (α := Float) != Float.ofBits c_DBL_MIN_bits.toUInt64 then
       diff := some "DBL_MIN of models/gamma.go is not 2^-1022"
     diff := chk diff "n" #[n.toFloat] nI
@@ -219,14 +236,13 @@ def handle : Handler := fun op args impl =>
     diff := chk diff "L" lM lI
     diff := chk diff "R" rM rI
     for (nm, x, pI) in xs do
-      let pM := match su.pij with
-        | some f => closedForm n f x
-        | none => assemble n valM lM rM x
-      diff := chk diff ("P" ++ nm) pM pI
+      match su.pij with
+      | some f => diff := chk diff ("P" ++ nm) (closedForm n f x) pI
+      | none => diff := chk diff ("P" ++ nm) (assemble n valM lM rM x) pI (some (assembleAbs n valM lM rM x))
     match su.pij, esI with
     | some _, some (a, b, c) =>
       for (nm, x, eI) in [("s", s, a), ("t", t, b), ("st", s + t, c)] do
-        diff := chk diff ("E" ++ nm) (assemble n valM lM rM x) eI
+        diff := chk diff ("E" ++ nm) (assemble n valM lM rM x) eI (some (assembleAbs n valM lM rM x))
     | some _, none => diff := diff <|> some "missing eigen-based sections for an analytical model"
     | none, some _ => diff := diff <|> some "unexpected eigen-based sections"
     | none, none => pure ()
